@@ -191,6 +191,23 @@ theorem C09_stored_roundtrip_layout_lit (sd : StoredDoc) (hx : (storedData sd.va
   C09_stored_roundtrip_layout snappyLit snappyDecode_snappyLit sd (C09_fastDecodes_snappyLit _ hx) hsz c doc
     pre post hb
 
+/-- The literal target against Layout's own decoder - assuming of `compress` only that
+    `Codec.snappyDecode` inverts it - is FALSE: counterexample `LS.bigDoc` (one value of
+    2^32 + 1 bytes) with the all-literals compressor; Layout's array decoder `snappyFast`
+    refuses blocks announcing more than 2^32 bytes (as Go's snappy does), the list decoder
+    `Codec.snappyDecode` has no such limit.  `C09_stored_roundtrip_layout` (hypothesis
+    `FastDecodes`) is the true variant; `C09_stored_roundtrip` (twin) needs nothing more. -/
+theorem C09_stored_roundtrip_layout_full_false : ¬ LS.stored_roundtrip_layout_full :=
+  LS.stored_roundtrip_layout_full_false
+
+theorem C09_stored_roundtrip_layout_partial (compress : Bytes → Bytes)
+    (hsn : ∀ x, snappyDecode (compress x) = some x) (sd : StoredDoc)
+    (hfd : LS.FastDecodes compress (storedData sd.vals))
+    (hsz : (encodeStoredDoc compress sd).length < 2 ^ 64) (c : Layout.Ctx) (doc : Nat) (pre post : Bytes)
+    (hb : Layout.ofBA c.b = pre ++ encodeStoredDoc compress sd ++ post) :
+    Layout.decStoredDoc c doc pre.length = .ok sd :=
+  C09_stored_roundtrip_layout compress hsn sd hfd hsz c doc pre post hb
+
 /-! ### concrete instances: both sides evaluated; Layout's OWN functions on the same bytes -/
 
 section Examples
@@ -286,4 +303,6 @@ open Zap.Props.C09Bytes
 #print axioms C09_stored_roundtrip_layout
 #print axioms C09_fastDecodes_snappyLit
 #print axioms C09_stored_roundtrip_layout_lit
+#print axioms C09_stored_roundtrip_layout_full_false
+#print axioms C09_stored_roundtrip_layout_partial
 end Report
